@@ -38,7 +38,7 @@ REGISTRY = dict(
     note=("Trusted: Coq 8.16.1 kernel (vm_compute, no native_compute), translate/py2coq.py + specs/stacking.py, harness/c17.py + scripted_envs.py, Python/numpy/gymnasium. "
           "The Box instance of the executable wrapper model is proved to run the abstract frame-stack (C17_box_window_is_episode_suffix); the Dict (per-key) instance, "
           "the numpy slicing/roll/concatenate/transposition code and 'observation belongs to the declared space' (observation_space.contains on every output) are tied by "
-          "correspondence only. Aliasing of returned arrays is decided under C19, episode statistics of VecMonitor under C18. All C17 theorems are closed under the global context."),
+          "correspondence only. Aliasing of returned arrays is decided under C19, episode statistics of VecMonitor under C18. Findings: none for C17 (F1, VecFrameStack returning its internal window, was repaired in /repo and is recorded under C19). All C17 theorems are closed under the global context."),
     technique="machine-checked proof in Coq (induction over histories and over wrapper stacks) + regenerated-fragment interface lemmas + differential correspondence + numpy oracle",
 )
 
